@@ -138,7 +138,7 @@ CHECKS = {
         level="model_checking", engine="seq",
         technique="total enumeration of request bodies over a JSON-structural alphabet up to a length bound plus all single-subtree mutations of valid requests, and adversarial creates after every accepted prefix with snapshot comparison",
         text="The real /cdc handler (getCDCHandler + handle_map + MetaCDC) is driven through httptest with every body up to the length bound over a JSON-structural alphabet and every single-subtree mutation of each valid request type; every answer must be one JSON object with a legal code and no handler may panic. Structurally valid creates with adversarial values are sent on the empty server and after every accepted prefix; a rejected request must leave tasks, checkpoints, bookkeeping and the store dump unchanged, an accepted one must not poison later requests.",
-        note="Honest limit: 'all byte strings' is covered to 5 bytes (6 thorough) over an 11-symbol alphabet plus structured mutations; prefixes of depth <= 2. Connectivity probe skipped through the verif hook, light replication entity.",
+        note="Honest limit: 'all byte strings' is covered to 5 bytes (6 thorough) over a 12-symbol alphabet, plus every tail of <= 4 bytes (5 thorough) after five prefixes that have opened a key or value string (bodies cut inside a string; this family reaches the goccy/go-json panic repaired by /repo cec9240), plus structured mutations; prefixes of depth <= 2. Connectivity probe skipped through the verif hook, light replication entity.",
         parts=[part("total", "server", ".", "TestVerifC19Total", shards=(8, 16), budget=(150, 900)),
                part("rejects", "server", ".", "TestVerifC19Rejects", shards=(4, 8), budget=(150, 600))],
     ),
@@ -154,7 +154,7 @@ CHECKS = {
         level="model_checking", engine="seq",
         technique="explicit-state BFS over API call histories with store-fault indexes on the real MetaCDC, invariant + reference state machine in every state",
         text="Every history of create/pause/resume/delete/get/list/restart over two tasks (one or two targets, auto-start on/off), optionally with the metadata store failing at the n-th call of an operation, is replayed on a fresh real MetaCDC; in every reached state the API, the persisted record, the in-memory table and the per-state gauges must agree, only legal transitions may succeed, and reference count, quit functions, replication entity, catalog subscriptions, source stream registrations and store records must match the set of running / existing tasks.",
-        note="Bounded: depth 5 (6 thorough), fault at store call 1..3 (1..6), two tasks, ids given by the client or assigned by the server; a failure report of the reader (error event) is one of the operations, and so is a restart whose reload meets a store failure at its n-th call (an internal pause that the store refuses to record is a recorded finding). Light replication entity (recording channel manager) in the lifecycle part; the fullstack part re-judges the C05/C06 full-stack scenarios (real readers, channel manager, writer) for agreement of the four views of the state at every quiescent point. The busy-background-work clause was exercised by the stall watchdog of the pipeline harness (barrier spin, fixed).",
+        note="Bounded: depth 5 (6 thorough), fault at store call 1..3 (1..6; create: 1..7 (1..10), which reaches the store calls of the start that follows the record write), two tasks, ids given by the client or assigned by the server; a failure report of the reader (error event) is one of the operations, and so is a restart whose reload meets a store failure at its n-th call (an internal pause that the store refuses to record is a recorded finding). Light replication entity (recording channel manager) in the lifecycle part; the fullstack part re-judges the C05/C06 full-stack scenarios (real readers, channel manager, writer) for agreement of the four views of the state at every quiescent point. The busy-background-work clause was exercised by the stall watchdog of the pipeline harness (barrier spin, fixed).",
         parts=[part("lifecycle", "server", ".", "TestVerifC11Lifecycle", shards=(16, 16), budget=(150, 1200)),
                part("fullstack", "server", ".", "TestVerifC11Fullstack", shards=(16, 16), budget=(150, 1200), gomaxprocs=1)],
     ),
@@ -177,7 +177,7 @@ CHECKS = {
     "C06": dict(
         level="fault_enumeration", engine="sched",
         technique="stateless DFS over goroutine schedules x failure positions (deviation-bounded) of the real full stack inside synctest bubbles",
-        text="For every failure class (downstream rejects a write once or repeatedly, store rejects a checkpoint, two failures, downstream rejects a drop, message for a partition unknown downstream) and task layout (1 task, 2 tasks on one target, 2 tasks on two targets) the failure is placed at every visible step of every schedule within the deviation bound on the real full stack; at every quiescent point the owning task must be Paused with a reason (memory, list API, store), other tasks unchanged, nothing of the failed stream acknowledged past the failed pack, and after resume the failed message is delivered; a panic kills the worker and is attributed to the execution.",
+        text="For every failure class (downstream rejects a write once or repeatedly, store rejects a checkpoint, two failures, downstream rejects a drop, insert or bulk-insert message for a partition unknown downstream) and task layout (1 task, 2 tasks on one target, 2 tasks on two targets) the failure is placed at every visible step of every schedule within the deviation bound on the real full stack; at every quiescent point the owning task must be Paused with a reason (memory, list API, store), other tasks unchanged, nothing of the failed stream acknowledged past the failed pack, and after resume the failed message is delivered; a panic kills the worker and is attributed to the execution.",
         note="Bounds: scripts of 3-5 packs, one failure per execution (two in the reject-two class), deviation bound 2 (3 thorough). Failure classes also cover: a rejected pack in the middle of a batch (batch sizes 2, 3), the create request / the start positions of a collection created while the task runs being refused, the connectivity check of a new channel handler refused at the task's start (scripted: the n-th check). Two-task layouts also run a second task's own failure after the first task's (doubly reported) failure.",
         parts=[part("failure", "server", ".", "TestVerifC06Failure", shards=(16, 16), budget=(150, 1200), gomaxprocs=1)],
     ),
